@@ -22,7 +22,8 @@ type ReplayFile struct {
 	Vectors  [][]NdVal      `json:"vectors"`
 	Expect   []string       `json:"expect,omitempty"` // what the engine predicted per vector
 	Note     string         `json:"note,omitempty"`
-	Race     bool           `json:"race,omitempty"` // run natively under the Go race detector
+	Race     bool           `json:"race,omitempty"`   // run natively under the Go race detector
+	Repeat   int            `json:"repeat,omitempty"` // run each vector this many times natively (behaviour that depends on Go map order)
 }
 
 var scratchRoot string
